@@ -1,2 +1,11 @@
+open Datatypes
 
 val map : ('a1 -> 'a2) -> 'a1 list -> 'a2 list
+
+val forallb : ('a1 -> bool) -> 'a1 list -> bool
+
+val filter : ('a1 -> bool) -> 'a1 list -> 'a1 list
+
+val find : ('a1 -> bool) -> 'a1 list -> 'a1 option
+
+val seq : nat -> nat -> nat list
